@@ -83,7 +83,16 @@ Proof. exact PrefixProofs.inadmissible_rejected. Qed.
    admissible reset values (declared default, else zero), and nothing left unread. A cut inside a string, byte
    vector, list, map or nested struct therefore always fails: no partial strings, no zero-filled buffers, no
    shortened containers. *)
-Theorem C06_prefix_general : forall e k n sid vs p q,
+(* the clause for every struct type, recursive ones included, kept visible; proved below for finite type graphs *)
+Definition C06_prefix_statement : Prop := forall e k sid vs p q,
+  wf_schema k e -> has_type e (TStruct sid) (VStruct vs) -> encode e sid (VStruct vs) = p ++ q ->
+  bad (decode e sid p) \/
+  exists i h ps, (i <= length (fields_of e sid))%nat /\
+    p = enc_fields e (firstn i vs) (firstn i (fields_of e sid)) ++ h /\ (h = [] \/ halfhead h) /\
+    optional (skipn i (fields_of e sid)) /\
+    Forall2 (fun fd pr => prior_ok e (fty fd) (fdef fd) pr) (fields_of e sid) ps /\
+    decode e sid p = DOk (VStruct (firstn i (norm_fields e vs (fields_of e sid)) ++ skipn i ps)) [].
+Theorem C06_prefix_general_partial : forall e k n sid vs p q,
   wf_schema k e -> (S k <= 64)%nat -> tfin n e (TStruct sid) = true -> (tneed n e (TStruct sid) + k <= 64)%nat ->
   has_type e (TStruct sid) (VStruct vs) -> encode e sid (VStruct vs) = p ++ q ->
   bad (decode e sid p) \/
@@ -152,7 +161,7 @@ Print Assumptions C06_scalar_prefix.
 Print Assumptions C06_prefix_flat.
 Print Assumptions C06_code_schemas_prefix_flat.
 Print Assumptions C06_code_schemas_flat_types.
-Print Assumptions C06_prefix_general.
+Print Assumptions C06_prefix_general_partial.
 Print Assumptions C06_code_schemas_prefix_general.
 Print Assumptions C06_member_prefix.
 Print Assumptions C06_inflated_string_member.
